@@ -231,9 +231,9 @@ Proof.
 Qed.
 
 Definition glob_pick (src : path) (e : path * node) : list path :=
-  match under src (fst e) with
-  | Some r => if is_mamba (file_name r) then [r] else []
-  | None => []
+  match under src (fst e), snd e with
+  | Some r, File _ => if is_mamba (file_name r) then [r] else []
+  | _, _ => []
   end.
 
 Lemma glob_mamba_eq : forall fs src, glob_mamba fs src = sort_paths (flat_map (glob_pick src) fs).
@@ -245,7 +245,7 @@ Proof.
   intros src. induction fs as [|[q m] fs IH]; intros p n H; cbn [fs_set flat_map].
   - unfold glob_pick. cbn [fst]. now rewrite H.
   - destruct (path_eqb q p) eqn:E; cbn [flat_map].
-    + reflexivity.
+    + apply path_eqb_true in E. subst q. unfold glob_pick at 1 3. cbn [fst]. now rewrite H.
     + now rewrite IH.
 Qed.
 
